@@ -218,6 +218,25 @@ theorem C19_modes_iter (cast castBack : Nat → Nat) (r : Run) (n : Nat) :
     simp only [Nat.repeat]
     rw [C19_modes, ih]
 
+/-- **C19_startup.** Resume and the mode switch compose: the start-up sequence of a run —
+    `load_or_init_model()` on a directory whose last save completed, `serve_mode()`, and the first
+    `train_mode()` of a training step — trains on exactly the saved parameters, whatever the
+    serving precision does to them and whatever `load_model` is configured. -/
+theorem C19_startup (cast castBack : Nat → Nat) (ord : Name → List FName) (s : TrainState) (fs : FS)
+    (hi : FsInv fs)
+    (hsame : ∀ c, resume fs = .loaded c → c.elapsed.step = s.elapsed.step → c = s) (lm : LoadModel) :
+    resumeWith lm (runAll (saveOps ord s fs) fs) = .loaded s ∧
+    ∀ tp, (trainMode castBack (serveMode cast ⟨s.params, tp⟩)).model = s.params :=
+  ⟨(C19_roundtrip ord s fs hi hsame).2.2 lm, fun tp => C19_modes cast castBack ⟨s.params, tp⟩⟩
+
+/-- … and the order of the calls matters: taking the master copy a second time, from the model
+    already cast to serving precision (`serve_mode(); serve_mode(); train_mode()`), hands training
+    the rounded parameters — the witness rounds to even numbers. -/
+theorem C19_double_serve_witness :
+    ∃ (cast castBack : Nat → Nat) (r : Run),
+      (trainMode castBack (serveMode cast (serveMode cast r))).model ≠ r.model :=
+  ⟨(fun x => x / 2 * 2), id, ⟨[5, 7], []⟩, by decide⟩
+
 example : (trainMode (· * 2) (serveMode (· / 2) ⟨[5, 7], []⟩)).model = [5, 7] ∧
     (serveMode (· / 2) ⟨[5, 7], []⟩).model = [2, 3] := by decide
 
